@@ -139,6 +139,9 @@ func gen(c *ex.Ctx) {
 			loopArms = []arm{{"?unrecognised loop body", nil}}
 		}
 		for _, r := range fn.Body.List[i+1:] {
+			if stmtSummary(c, r) == "log" {
+				continue // logging is not part of the skeleton
+			}
 			after = append(after, one(c.Src(r)))
 			if strings.Contains(c.Src(r), "applyQuirks") {
 				break
